@@ -101,6 +101,7 @@ fn main() {
         "C17" => facets::c17::run(&opts),
         "C14" => facets::c14::run(&opts),
         "C15" => facets::c15::run(&opts),
+        "C16" => facets::c16::run(&opts),
         other => {
             eprintln!("unknown facet {}", other);
             std::process::exit(2)
